@@ -1450,6 +1450,8 @@ class Model:
                 return str(args[0])
             if args and isinstance(args[0], ExactImage | list | tuple | dict) and _plain_with_images(args[0]):
                 return str(args[0])
+            if args and isinstance(args[0], Unit):
+                return ExactImage('text of unit', args[0])  # scipp's spelling of the unit: some text that is the same for the same unit
             return Opaque('str(...)')
         if name in ('ValueError', 'TypeError', 'KeyError', 'RuntimeError', 'NotImplementedError',
                     'Exception', 'IndexError', 'AttributeError'):
@@ -1730,6 +1732,36 @@ class ExactImage:
 
     def hex(self):
         return ExactImage('hex', self)
+
+    def __add__(self, o):
+        if isinstance(o, str | ExactImage):
+            return ExactImage('+', self, o)
+        return NotImplemented
+
+    def __radd__(self, o):
+        if isinstance(o, str):
+            return ExactImage('+', o, self)
+        return NotImplemented
+
+    def _text_method(self, name, *args):
+        if all(isinstance(a, str | int | ExactImage) for a in args):
+            return ExactImage('.' + name, self, *args)
+        raise AnalysisError(f'{name}{args!r} of the text behind {self!r} is not modelled')
+
+    def ljust(self, *a):
+        return self._text_method('ljust', *a)
+
+    def rjust(self, *a):
+        return self._text_method('rjust', *a)
+
+    def strip(self, *a):
+        return self._text_method('strip', *a)
+
+    def lower(self):
+        return self._text_method('lower')
+
+    def upper(self):
+        return self._text_method('upper')
 
     def __float__(self):
         raise AnalysisError(f'the number behind {self!r} is not modelled')
